@@ -11,7 +11,7 @@ import numpy as np
 from ..core import util
 from ..oracles import graphs as G
 from ..oracles import exact as X
-from ..workloads import gmat
+from ..workloads import gmat, callforms
 
 TECHNIQUE = "runtime post-condition monitor on LGANM.sample(population=True) vs. exact-rational path-sum solution of the intervened SEM; all 8^3 intervention assignments on fixed 3-node graphs + random signed DAGs x dtypes x dict/{}/None"
 LEVEL_TEXT = ("Each population distribution returned for the workload is compared (mean and covariance, max norm, tolerance "
@@ -30,10 +30,10 @@ ASSUMPTIONS = ["scalar intervention parameters are python int/float (the documen
 EXHAUSTIVE = {"quick": False, "thorough": False}
 SOFT_LIMIT = {"quick": 240, "thorough": 1500}
 REQUIRED_FUNCS = ["sempler/lganm.py:LGANM.sample", "sempler/lganm.py:_parse_interventions", "sempler/lganm.py:LGANM.__init__"]
-REQUIRED_COUNTERS = {"quick": {"judged": 5000, "overlap:do+noise": 100, "overlap:do+shift": 100, "overlap:noise+shift": 100,
+REQUIRED_COUNTERS = {"quick": {"judged": 5000, "call-form:positional": 300, "overlap:do+noise": 100, "overlap:do+shift": 100, "overlap:noise+shift": 100,
                                "overlap:all-three": 50, "scalar-param": 500, "dtype:int-means-or-variances": 200, "form:None": 100, "form:{}": 100, "form:omitted": 100,
                                "ctor:ranges": 200},
-                     "thorough": {"judged": 50000, "overlap:do+noise": 1000, "overlap:do+shift": 1000, "overlap:noise+shift": 1000,
+                     "thorough": {"judged": 50000, "call-form:positional": 3000, "overlap:do+noise": 1000, "overlap:do+shift": 1000, "overlap:noise+shift": 1000,
                                   "overlap:all-three": 500, "scalar-param": 5000, "dtype:int-means-or-variances": 2000, "form:None": 1000,
                                   "form:{}": 1000, "form:omitted": 1000, "ctor:ranges": 2000}}
 N = {"quick": {"random": 9000, "dtype": 2500, "ctor": 600}, "thorough": {"random": 1000000, "dtype": 300000, "ctor": 50000}}
@@ -229,7 +229,15 @@ def judge(family, case, rec):
             if form != "omitted":
                 kw[name] = _arg(dd, form)
         sweep_first = bool(touched and (p + len(touched)) % 3 == 1)
-        dist = None if sweep_first else model.sample(population=True, **kw)
+        # one case in four is asked with every argument given positionally, in the documented order
+        pos_form = bool(touched) and (p + 2 * len(touched) + len(do_t)) % 4 == 1
+        rec.count("call-form:positional") if pos_form else None
+
+        def ask(**kw_):
+            if pos_form:
+                return model.sample(*callforms.positional("LGANM.sample", 100, True, **kw_))
+            return model.sample(population=True, **kw_)
+        dist = None if sweep_first else ask(**kw)
     except Exception as e:
         key = "C01:exception-" + type(e).__name__
         rec.exception_violation(key, family, case, "LGANM.sample(population=True) raised %s" % type(e).__name__, e)
@@ -254,7 +262,7 @@ def judge(family, case, rec):
                         kw0[name] = _arg(dd, form)
                 model.sample(population=True, **kw0)
                 model.sample(2, **kw0)
-            dist = model.sample(population=True, **kw)
+            dist = ask(**kw)
             rec.count("history:near-equal-parameter-sweep")
         except Exception as e:
             rec.exception_violation("C01:exception-on-sweep-" + type(e).__name__, family, case, "a parameter sweep on the same model raised", e)
@@ -267,7 +275,7 @@ def judge(family, case, rec):
             dist.covariance[...] = -7.0
             model.sample(population=True)
             model.sample(population=True, do_interventions={0: (1.0, 2.0)})
-            dist = model.sample(population=True, **kw)
+            dist = ask(**kw)
             rec.count("history:repeat-after-caller-overwrote-result")
         except Exception as e:
             rec.exception_violation("C01:exception-on-repeat-" + type(e).__name__, family, case, "repeating the call raised", e)
